@@ -25,16 +25,20 @@ type interleaving struct {
 	MaxConc int    `json:"max_concurrent_events"`
 	N       int    `json:"backends"`
 	Head    string `json:"head"`  // backend-handler | tag-head | full-chain
-	Order   string `json:"order"` // which held backend is released first: oldest | newest
+	Order   string `json:"order"` // which held backend is released next: oldest | newest | all-held (all at once)
 	Gated   []bool `json:"gated"` // per backend: SendEvent blocks until the harness releases it
 }
 
-func makeInterleaving(i int) *interleaving {
-	s := &interleaving{Index: i, MaxConc: 1 + i%2}
-	s.N = s.MaxConc + 1 + (i/2)%3
-	s.Head = []string{"full-chain", "backend-handler", "tag-head"}[(i/6)%3]
-	s.Order = []string{"oldest", "newest"}[(i/18)%2]
-	mask := i / 36
+// makeInterleaving enumerates the scenario space in mixed radix. The position t is derived from the
+// scenario index so that the scenarios of one shard (i = shard + shards*k) walk through consecutive
+// positions instead of sharing the low digits.
+func makeInterleaving(i, shards int) *interleaving {
+	t := i/shards + (i%shards)*5
+	s := &interleaving{Index: i, MaxConc: 1 + t%2}
+	s.N = s.MaxConc + 1 + (t/2)%3
+	s.Head = []string{"full-chain", "backend-handler", "tag-head"}[(t/6)%3]
+	s.Order = []string{"oldest", "newest", "all-held"}[(t/18)%3]
+	mask := t / 54
 	for k := 0; k < s.N; k++ {
 		// the first max-concurrent-events backends are always gated, so that the dispatcher parks
 		g := k < s.MaxConc || (mask>>uint(k-s.MaxConc))&1 == 0
@@ -45,7 +49,8 @@ func makeInterleaving(i int) *interleaving {
 
 func (c *checker) interleave(i int) outcome {
 	r := c.r
-	sc := makeInterleaving(i)
+	_, shards := r.Shard()
+	sc := makeInterleaving(i, shards)
 	cfg := &config{Index: i, Mode: "backends", NBackends: sc.N, MaxConc: sc.MaxConc, Parsers: 1, Workers: 1, Queue: 1, Cloud: sc.Head == "full-chain", Responder: "immediate", Static: []string{"static:1"},
 		Sources: []*srcPlan{{Addr: "10.8.8.8", Mode: "hit", ID: "i-interleave", Tags: []string{"az:c"}, inst: &gostatsd.Instance{ID: "i-interleave", Tags: gostatsd.Tags{"az:c"}}}}}
 	replay := map[string]interface{}{"kind": "interleaving", "cfg": i, "scenario": sc}
@@ -124,11 +129,18 @@ func (c *checker) interleave(i int) outcome {
 			mon.WaitUntil(10*time.Millisecond, func() bool { return ws.Load() != 0 })
 		}
 		hs := held()
-		k := hs[0]
-		if sc.Order == "newest" {
-			k = hs[len(hs)-1]
+		switch sc.Order {
+		case "newest":
+			release(hs[len(hs)-1])
+		case "all-held":
+			// every slot is freed at once: the count of outstanding sends can reach zero before the
+			// parked dispatcher has moved on
+			for _, k := range hs {
+				release(k)
+			}
+		default:
+			release(hs[0])
 		}
-		release(k)
 	}
 	if wDone == nil {
 		// cannot happen with backends > max-concurrent-events and the first ones gated
